@@ -432,6 +432,9 @@ fn large_literals(ctx: &Ctx) -> Vec<(Case, bool)> {
 pub fn run(ctx: &Ctx) {
     ctx.set_rule("interpolated literals with one slot and every alphabet symbol (or none) on each side, two slots with symbols before / between / after (exhaustive over a 21-symbol alphabet of ASCII, the escapes \\\\ \\\" \\$ \\n \\r \\xHH, raw newline / tab, 2-4 byte characters, braces, brackets), random literals with 0..3 slots; slot expressions: variable, literal, multi-byte literal, concatenation, call, object literal with braces, list literal, nested interpolation, range index, parenthesised, type function, a counter (order-dependent), called function literal, literal with escapes, and non-string / undefined ones; plain literals with print, ->len(), byte-wise for / index / range; invalid escapes, invalid hex digits (incl. non-ASCII characters whose low byte is a hex digit), raw $ and bad slot starts after every prefix symbol; oracle: decoded characters, reference interpreter, interpolation == concatenation (same stdout and outcome), lexical errors at the offending character; random code points from every plane incl. those ending in the byte of a structural ASCII character, inside and outside slots; `\\xHH` for U+0080..U+00FF under the value-independent relation only; text of 33..300 units around slots, twelve slots; an interpolated literal in every position where a string may stand (key of a literal / of a pattern in four binding positions, index, argument, element, operand, iterable, receiver) against the concatenation; all three-slot literals over slots whose evaluation changes what other slots read. Non-trivial = a multi-byte character before or between slots, an escape next to a slot boundary, or a slot containing braces / a nested literal / a call; distinct = distinct source texts");
     ctx.replay_corpus(None);
+    let hist = crate::props::faults::history_cases("C15", &["value"]);
+    ctx.label_n("literal evaluated after similar literals: independent of the history", hist.len() as u64);
+    ctx.judge_all(hist, Via::Cli, None);
     let cases = exhaustive_small(ctx);
     ctx.set_extra("exhaustive_small_cases", serde_json::json!(cases.len()));
     ctx.mark_exhaustive("one-slot literals with every symbol pair around the slot");
